@@ -70,8 +70,11 @@ def _diff(a, b):
     return f'len {len(a)} vs {len(b)}'
 
 
+DEFAULT_BUDGET = {'quick': 600, 'thorough': 8000}
+
+
 def run(props, tier, seed, budget=None):
-    return generic_run('clone', run_case, props, seed, budget or (400 if tier == 'quick' else 8000),
+    return generic_run('clone', run_case, props, seed, budget or DEFAULT_BUDGET[tier],
                        'seeded random WBS (1-6 tasks, hierarchy, links, custom attributes, WBS attributes, links to 2 outside tasks) cloned and sub-treed; distinct by input',
                        lambda d: d if len(d['wbs']) > 1 else None)
 
